@@ -1,13 +1,354 @@
-//! C13 — not implemented yet (stub so that props/mod.rs never has to change).
-use crate::engine::PropSpec;
+//! C13 — Results do not depend on thread scheduling, latency or pack boundaries.
+//!
+//! Generated: one (chunker configuration, source tree, command) and several *perturbations* of it:
+//! seeded latency per backend call, seeded sleeps at the four `sched_point`s between the packer's
+//! pipeline stages, pack-size settings from one blob per pack upward, extra-verify on/off; the
+//! rayon pool size varies per worker process (1, 2, 4, 16). Oracle (differential + invariant): all
+//! runs return Ok within the watchdog, agree on the snapshot tree id and on the set of referenced
+//! blobs (backup) resp. on the set of blobs reachable from all snapshots (prune, copy); after each
+//! run every pack is listed by the index with exactly the blobs of its trailer, `check --read-data`
+//! is clean and the snapshots read back as their model.
+
+use std::{
+    collections::BTreeSet,
+    sync::{
+        Arc,
+        atomic::{AtomicU64, Ordering},
+    },
+};
+
+use proptest::prelude::*;
+use rustic_core::repofile::SnapshotFile;
+use serde::{Deserialize, Serialize};
+
+use crate::{
+    engine::{Ctx, DynSub, Outcome, PropSpec, Sub, guarded},
+    r#gen::{Edit, apply_edit, edit, tree},
+    history::{Lim, PruneCfg},
+    inspect::{BlobKey, index_view, reachable},
+    membe::{Storage, id_bytes},
+    model::{Flat, MNode, ReadSchedule, flatten},
+    repo::{
+        CheckVerdict, CmpOpts, PackCfg, RepoCfg, backup_tree, check_verdict, compare, estr, force_opts,
+        init_repo, open_full, open_repo, read_snapshot, repo_cfg, snap_template,
+    },
+};
+
+#[derive(Debug, Clone, Serialize, Deserialize, PartialEq, Eq)]
+pub struct Perturb {
+    pub lat_seed: u64,
+    /// max microseconds of delay for reads / writes (0 = none)
+    pub lat_read: u16,
+    pub lat_write: u16,
+    /// max microseconds of sleep at the packer's sched points (0 = none)
+    pub sched: u16,
+    pub tree_pack: PackCfg,
+    pub data_pack: PackCfg,
+    pub extra_verify: Option<bool>,
+}
+
+#[derive(Debug, Clone, Copy, Serialize, Deserialize, PartialEq, Eq)]
+pub enum Cmd {
+    Backup,
+    Prune,
+    Copy,
+}
+
+#[derive(Debug, Clone, Serialize, Deserialize)]
+pub struct Case {
+    pub cfg: RepoCfg,
+    pub tree: MNode,
+    pub edits: Vec<Edit>,
+    pub cmd: Cmd,
+    pub fast_repack: bool,
+    pub perturbations: Vec<Perturb>,
+}
+
+fn pack_cfg() -> impl Strategy<Value = PackCfg> {
+    (
+        prop_oneof![
+            3 => Just(Some(0u32)),
+            3 => (1u32..30_000).prop_map(Some),
+            1 => (30_000u32..1_000_000).prop_map(Some),
+            1 => Just(None),
+        ],
+        prop_oneof![Just(Some(0u32)), Just(None), Just(Some(32u32))],
+    )
+        .prop_map(|(size, grow)| PackCfg { size, grow, limit: None })
+}
+
+fn perturb() -> impl Strategy<Value = Perturb> {
+    (
+        any::<u64>(),
+        prop_oneof![2 => Just(0u16), 3 => 1u16..600, 1 => 600u16..3000],
+        prop_oneof![1 => Just(0u16), 3 => 1u16..1500, 1 => 1500u16..6000],
+        prop_oneof![2 => Just(0u16), 3 => 1u16..1500],
+        pack_cfg(),
+        pack_cfg(),
+        prop_oneof![Just(None), Just(Some(true)), Just(Some(false))],
+    )
+        .prop_map(|(lat_seed, lat_read, lat_write, sched, tree_pack, data_pack, extra_verify)| Perturb {
+            lat_seed,
+            lat_read,
+            lat_write,
+            sched,
+            tree_pack,
+            data_pack,
+            extra_verify,
+        })
+}
+
+fn strategy(ctx: &Ctx) -> BoxedStrategy<Case> {
+    let n = if ctx.tier.is_thorough() { 10 } else { 5 };
+    repo_cfg()
+        .prop_flat_map(move |cfg| {
+            let mut p = super::c07::params(&cfg);
+            p.file_cap = 120_000;
+            (
+                Just(cfg),
+                tree(p),
+                prop::collection::vec(edit(p), 0..4),
+                prop_oneof![3 => Just(Cmd::Backup), 2 => Just(Cmd::Prune), 1 => Just(Cmd::Copy)],
+                any::<bool>(),
+                prop::collection::vec(perturb(), n..=n),
+            )
+        })
+        .prop_map(|(cfg, tree, edits, cmd, fast_repack, mut perturbations)| {
+            // the first run is the unperturbed one with the case's own pack settings
+            perturbations[0] = Perturb {
+                lat_seed: 0,
+                lat_read: 0,
+                lat_write: 0,
+                sched: 0,
+                tree_pack: cfg.tree_pack.clone(),
+                data_pack: cfg.data_pack.clone(),
+                extra_verify: cfg.extra_verify,
+            };
+            // plain repetition: the second run repeats the first
+            perturbations[1] = perturbations[0].clone();
+            Case {
+                cfg,
+                tree,
+                edits,
+                cmd,
+                fast_repack,
+                perturbations,
+            }
+        })
+        .boxed()
+}
+
+struct RunResult {
+    trees: Vec<String>,
+    blobs: BTreeSet<BlobKey>,
+    packs: usize,
+    nblobs: usize,
+}
+
+fn one_run(c: &Case, p: &Perturb) -> Result<RunResult, String> {
+    let mut cfg = c.cfg.clone();
+    cfg.tree_pack = p.tree_pack.clone();
+    cfg.data_pack = p.data_pack.clone();
+    cfg.extra_verify = p.extra_verify;
+    let key = cfg.key64();
+    // seeded sleeps between the pipeline stages
+    let counter = Arc::new(AtomicU64::new(0));
+    if p.sched > 0 {
+        let (seed, max, counter) = (p.lat_seed, u64::from(p.sched), counter.clone());
+        rustic_core::verif::set_sched_callback(Some(Arc::new(move |_tag| {
+            let n = counter.fetch_add(1, Ordering::SeqCst);
+            let r = crate::model::splitmix(seed ^ n.wrapping_mul(0x9E37_79B9));
+            let us = r % (max + 1);
+            if us > 0 {
+                std::thread::sleep(std::time::Duration::from_micros(us));
+            } else {
+                std::thread::yield_now();
+            }
+        })));
+    }
+    let res = guarded(|| one_run_inner(c, p, &cfg, &key));
+    rustic_core::verif::set_sched_callback(None);
+    match res {
+        Ok(r) => r,
+        Err(panic) => Err(format!("panicked: {panic}")),
+    }
+}
+
+fn perturbed_handle(st: &Arc<Storage>, p: &Perturb) -> crate::membe::MemBackend {
+    let be = st.handle();
+    if p.lat_read > 0 || p.lat_write > 0 {
+        be.control(|ctl| ctl.latency = Some((p.lat_seed, u64::from(p.lat_read), u64::from(p.lat_write))));
+    }
+    be
+}
+
+fn one_run_inner(c: &Case, p: &Perturb, cfg: &RepoCfg, key: &[u8; 64]) -> Result<RunResult, String> {
+    let st = Storage::new();
+    drop(init_repo(st.handle(), cfg)?);
+    let mut models: Vec<(SnapshotFile, Arc<Flat>)> = Vec::new();
+    let mut tree = c.tree.clone();
+    let backup = |st: &Arc<Storage>, tree: &MNode, t: i64, perturbed: bool| -> Result<SnapshotFile, String> {
+        let be = if perturbed { perturbed_handle(st, p) } else { st.handle() };
+        let repo = open_repo(be, cfg)?.to_indexed_ids().map_err(|e| estr(&e))?;
+        backup_tree(&repo, tree, &ReadSchedule::default(), &force_opts(), snap_template(t, "host", "", ""))
+    };
+    let verify_store = st.clone();
+    match c.cmd {
+        Cmd::Backup => {
+            for e in &c.edits {
+                _ = apply_edit(&mut tree, e, 77);
+            }
+            let s = backup(&st, &tree, 1_700_000_000, true)?;
+            models.push((s, Arc::new(flatten(&tree))));
+        }
+        Cmd::Prune => {
+            // two snapshots, forget the first, prune under perturbation
+            let s1 = backup(&st, &tree, 1_700_000_000, false)?;
+            for e in &c.edits {
+                _ = apply_edit(&mut tree, e, 77);
+            }
+            let s2 = backup(&st, &tree, 1_700_000_100, false)?;
+            open_repo(st.handle(), cfg)?.delete_snapshots(&[s1.id]).map_err(|e| estr(&e))?;
+            models.push((s2, Arc::new(flatten(&tree))));
+            let pc = PruneCfg {
+                max_unused: Lim::Pct(0),
+                max_repack: Lim::Unlimited,
+                keep_pack_1h: false,
+                keep_delete_23h: false,
+                instant_delete: true,
+                early_delete_index: false,
+                fast_repack: c.fast_repack,
+                repack_all: false,
+                repack_uncompressed: false,
+                no_resize: false,
+                repack_cacheable_only: None,
+            };
+            let repo = open_repo(perturbed_handle(&st, p), cfg)?;
+            let opts = pc.options(cfg);
+            let plan = repo.prune_plan(&opts).map_err(|e| format!("prune_plan: {}", estr(&e)))?;
+            repo.prune(&opts, plan).map_err(|e| format!("prune: {}", estr(&e)))?;
+        }
+        Cmd::Copy => {
+            // source: fixed settings (the case's own), destination: perturbed settings and handle
+            let src = Storage::new();
+            let mut scfg = c.cfg.clone();
+            scfg.key_seed += 5;
+            drop(init_repo(src.handle(), &scfg)?);
+            let s1 = {
+                let repo = open_repo(src.handle(), &scfg)?.to_indexed_ids().map_err(|e| estr(&e))?;
+                backup_tree(&repo, &tree, &ReadSchedule::default(), &force_opts(), snap_template(1_700_000_000, "host", "", ""))?
+            };
+            let m1 = Arc::new(flatten(&tree));
+            for e in &c.edits {
+                _ = apply_edit(&mut tree, e, 77);
+            }
+            let s2 = {
+                let repo = open_repo(src.handle(), &scfg)?.to_indexed_ids().map_err(|e| estr(&e))?;
+                backup_tree(&repo, &tree, &ReadSchedule::default(), &force_opts(), snap_template(1_700_000_100, "host", "", ""))?
+            };
+            let m2 = Arc::new(flatten(&tree));
+            let from = open_full(&src, &scfg)?;
+            let to = open_repo(perturbed_handle(&st, p), cfg)?.to_indexed_ids().map_err(|e| estr(&e))?;
+            from.copy(&to, [&s1, &s2]).map_err(|e| format!("copy: {}", estr(&e)))?;
+            let all = open_repo(st.handle(), cfg)?.get_all_snapshots().map_err(|e| estr(&e))?;
+            for s in all {
+                let m = if s.tree == s1.tree && s.time == s1.time { m1.clone() } else { m2.clone() };
+                models.push((s, m));
+            }
+            if models.len() != 2 {
+                return Err(format!("copy of 2 snapshots produced {} snapshots", models.len()));
+            }
+        }
+    }
+    // invariants on the resulting repository
+    let (packs, _) = super::c08::verify_packs(&verify_store, key, true)?;
+    let view = index_view(&verify_store, key)?;
+    let mut blobs = BTreeSet::new();
+    let mut trees: Vec<String> = Vec::new();
+    let full = open_full(&verify_store, cfg)?;
+    for (s, m) in &models {
+        blobs.extend(reachable(&verify_store, key, &view, &id_bytes(&s.tree))?);
+        trees.push(s.tree.to_hex().to_string());
+        let got = read_snapshot(&full, s, true)?;
+        if let Some(d) = compare(m, &got, &CmpOpts { full_meta: true, content: true }) {
+            return Err(format!("snapshot differs from the source: {d}"));
+        }
+    }
+    trees.sort();
+    if let CheckVerdict::Errors(e) = check_verdict(&full, true) {
+        return Err(e);
+    }
+    let nblobs = view.blobs.len();
+    Ok(RunResult {
+        trees,
+        blobs,
+        packs,
+        nblobs,
+    })
+}
+
+pub fn run(c: &Case, _ctx: &Ctx) -> Outcome {
+    let mut out = Outcome::pass()
+        .class(format!("{:?}", c.cmd))
+        .class(format!("rayon_threads_{}", std::env::var("RAYON_NUM_THREADS").unwrap_or_else(|_| "default".into())));
+    let mut reference: Option<RunResult> = None;
+    let mut max_packs = 0;
+    let mut max_blobs = 0;
+    let mut delayed_write = false;
+    for (i, p) in c.perturbations.iter().enumerate() {
+        let r = match one_run(c, p) {
+            Ok(r) => r,
+            Err(e) => {
+                out.failure = Some(format!("run #{i} ({p:?}): {e}"));
+                return out;
+            }
+        };
+        max_packs = max_packs.max(r.packs);
+        max_blobs = max_blobs.max(r.nblobs);
+        delayed_write |= p.lat_write > 0;
+        match &reference {
+            None => reference = Some(r),
+            Some(first) => {
+                if first.trees != r.trees {
+                    out.failure = Some(format!(
+                        "run #{i} ({p:?}) produced tree id(s) {:?}, the unperturbed run {:?}",
+                        r.trees, first.trees
+                    ));
+                    return out;
+                }
+                if first.blobs != r.blobs {
+                    out.failure = Some(format!(
+                        "run #{i} ({p:?}) references {} blobs, the unperturbed run {} (symmetric difference {})",
+                        r.blobs.len(),
+                        first.blobs.len(),
+                        first.blobs.symmetric_difference(&r.blobs).count()
+                    ));
+                    return out;
+                }
+            }
+        }
+    }
+    out.nontrivial = max_blobs >= 20 && max_packs >= 3 && delayed_write;
+    out.count("runs", c.perturbations.len() as u64)
+}
 
 pub fn spec() -> PropSpec {
     PropSpec {
         id: "C13",
         level: "exploration",
-        rule: "",
-        assumptions: vec![],
-        subs: vec![],
+        rule: "proptest generates (chunker configuration, source tree, edit script, command ∈ {backup, prune after a forget (fast or re-encoding repack), copy of two snapshots}) and 5 (quick) / 10 (thorough) runs of it: the unperturbed run, a plain repetition, and runs with seeded latency per backend call (reads ≤3 ms, writes ≤6 ms, occasionally 10x), seeded sleeps ≤1.5 ms at the four packer sched points, tree/data pack sizes from one blob per pack to the defaults, extra-verify on/off; worker processes use rayon pools of 1, 2, 4 and 16 threads. Non-trivial = ≥20 blobs, ≥3 packs and at least one run with delayed pack writes; distinct by hash of the case. This is SAMPLING of schedules, not control: a deadlock would surface as a watchdog expiry (exit 2, case saved).",
+        assumptions: vec![
+            "interleavings that need a precise preemption inside a critical section are unlikely to be hit: weakest claim of the set",
+            "termination is only observed as 'finished within the watchdog limit'",
+        ],
+        subs: vec![Box::new(Sub {
+            name: "perturb",
+            cases_quick: 400,
+            cases_thorough: 4000,
+            max_shrink_iters: 60,
+            strategy,
+            run,
+        }) as Box<dyn DynSub>],
         extra: None,
     }
 }
